@@ -79,24 +79,23 @@ func hostileCounts(remaining int) [][]byte {
 	return out
 }
 
-// hasRagged: some LIST/MAP with at least two elements has an element that is itself a LIST/MAP with a different count
+// hasRagged: some LIST/MAP with at least two elements has a FIRST element (first value, for a map) that is itself a
+// LIST/MAP with at least two elements and a different count
 func hasRagged(l []span) bool {
+	cnt := func(s span) int {
+		if s.Ty == 8 {
+			return len(s.Kids) / 2
+		}
+		return len(s.Kids)
+	}
 	for _, s := range allSpans(l) {
-		if (s.Ty == 9 || s.Ty == 8) && len(s.Kids) >= 2 {
-			n := len(s.Kids)
+		if (s.Ty == 9 || s.Ty == 8) && cnt(s) >= 2 {
+			k := s.Kids[0]
 			if s.Ty == 8 {
-				n /= 2
+				k = s.Kids[1]
 			}
-			for _, k := range s.Kids {
-				if k.Ty == 9 || k.Ty == 8 {
-					m := len(k.Kids)
-					if k.Ty == 8 {
-						m /= 2
-					}
-					if m != n && m > 0 {
-						return true
-					}
-				}
+			if (k.Ty == 9 || k.Ty == 8) && cnt(k) >= 2 && cnt(k) != cnt(s) {
+				return true
 			}
 		}
 	}
@@ -125,9 +124,9 @@ func c05Gen(tier string, rng *rand.Rand) []mCase {
 	// list/map with another count), so that the near-count mutations below meet inner counts that differ from outer ones
 	for sid, e := range registry {
 		kept := 0
-		for i := 0; i < 40 && kept < 2; i++ {
+		for i := 0; i < 80 && kept < 2; i++ {
 			v := gRandomValue(rng, e)
-			if bs, err := gEncode(v); err == nil && len(bs) <= maxLen {
+			if bs, err := gEncode(v); err == nil && len(bs) <= 4*maxLen {
 				if sp, ok := walkTop(bs); ok && hasRagged(sp) {
 					bases = append(bases, base{e, sid, v, bs, sp})
 					kept++
